@@ -657,6 +657,21 @@ def check_strace(chk, desc, log, key_dir, models):
     except OSError:
         chk.broken.append({"kind": "harness", "name": "strace", "why": "no trace"})
         return
+    # strace -f splits a call that another thread interrupts into "... <unfinished ...>" and "<... name resumed> ...) = result":
+    # join the two halves (per thread) so that the result belongs to the call again
+    joined, pending = [], {}
+    for l in lines:
+        mp = re.match(r"\s*(\d+)\s+(.*)$", l)
+        pid_, body = (mp.group(1), mp.group(2)) if mp else ("", l)
+        if body.endswith("<unfinished ...>"):
+            pending[pid_] = body[:-len("<unfinished ...>")]
+            continue
+        mr = re.match(r"<\.\.\. \w+ resumed>\s*(.*)$", body)
+        if mr and pid_ in pending:
+            joined.append(pid_ + " " + pending.pop(pid_) + mr.group(1))
+            continue
+        joined.append(l)
+    lines = joined
     ops = []
     for l in lines:
         if key_dir not in l or "= -1" in l and "EEXIST" not in l:
@@ -686,8 +701,12 @@ def check_strace(chk, desc, log, key_dir, models):
             if o.startswith("create"):
                 break
         return [o for o in out if o != "mkdir"]     # mkdir is skipped when the directory exists (create_dir_all / harness pre-creates)
-    if upto_create(ops) != upto_create(want):
-        chk.disagreement("fs-order", desc, upto_create(want), upto_create(ops))
+    w_, o_ = upto_create(want), upto_create(ops)
+    if not any(x.startswith("create") for x in o_):
+        # the traced (first) process lifetime ended before any key was stored: the model's first create belongs to a later lifetime
+        w_ = [x for x in w_ if not x.startswith("create")]
+    if o_ != w_:
+        chk.disagreement("fs-order", desc, w_, o_)
     seen_chmod = False
     for o in ops:
         if o == "chmod448":
